@@ -13,12 +13,11 @@ VARIABLE x
 
 Trace == ndJsonDeserialize(IOEnv.TRACE_FILE)
 
-TolInt12 == 100000        \* Tol_Int = 1e-7 of the gross scale (DESIGN 3.4), in units of 1e-12
+TolNear12 == 100000       \* Tol_Int = 1e-7 of the gross scale (DESIGN 3.4), in units of 1e-12
+TolFar12 == 10000000      \* 1e-5 when every source is farther than 10 of its sizes (documented loss of accuracy at large distances)
 QErrMax12 == 10000        \* instances whose own quadrature error estimate exceeds 1e-8 are unmeasurable
-\* The laws presuppose a field that is smooth between the supplied breakpoints (all material and switch surfaces are
-\* breakpoints).  Then refining every piece reduces the error estimate by orders of magnitude.  An estimate that stays
-\* above 1e-6 of the gross scale and is not even halved by the refinement means the returned values are not a piecewise
-\* smooth field on that surface / loop (noise, jumps off the documented surfaces): no integral law can hold to 1e-7.
+\* Information only (never a verdict): an error estimate that stays above 1e-6 and is not even halved by refining every
+\* piece suggests that the returned values are not a piecewise smooth field there (noise, jumps off the listed surfaces).
 \* "qppm": <<before, after>> = the two error estimates in units of 1e-6 of the gross scale (never capped)
 NotSmooth(e) == e.sub > 1 /\ e.qppm[2] >= 1 /\ 2 * e.qppm[2] >= e.qppm[1]
 
@@ -38,13 +37,13 @@ FluxVerdict(e) ==
       hi == V3(i.hi)
       full == <<i.full[1], i.full[2], i.full[3]>>
       q == e.meas.q
+      TolInt12 == IF AllFar(scene, ch, CellCorners(lo, hi)) THEN TolFar12 ELSE TolNear12
   IN IF ~FluxPremise(scene, ch, lo, hi, full) THEN <<"machinery", "Premise">>
      ELSE IF Seqify(e.der.faces) # Faces(ch, lo, hi, full) THEN <<"machinery", "Faces">>
      ELSE IF \E k \in 1..3 : Range(e.der.brk[k]) # CellBreaks(scene, ch, lo, hi)[k] THEN <<"machinery", "Breaks">>
      ELSE IF ~e.meas.fin THEN <<e.prop, "FiniteIntegrand">>
-     ELSE IF NotSmooth(e) THEN <<e.prop, "PiecewiseSmoothIntegrand">>
-     ELSE IF e.qerr > QErrMax12 THEN <<"unmeasurable", "QuadratureError">>
-     ELSE IF q[1] # 0 \/ Abs(q[2]) > TolInt12 THEN <<e.prop, "FluxZero">>
+     ELSE IF e.qerr > QErrMax12 THEN <<"unmeasurable", IF NotSmooth(e) THEN "Rough" ELSE "QuadratureError">>
+     ELSE IF Abs(q[1]) > 20 \/ Abs(q[1] * 1000000 + q[2]) > TolInt12 THEN <<e.prop, "FluxZero">>
      ELSE <<"ok", "ok">>
 
 CircVerdict(e) ==
@@ -54,20 +53,36 @@ CircVerdict(e) ==
       edges == EdgesOf(i.edges)
       q == e.meas.q
       a == e.amp.q
+      TolInt12 == IF AllFar(scene, ch, LoopVerts(edges)) THEN TolFar12 ELSE TolNear12
   IN IF ~CircPremise(scene, ch, edges) THEN <<"machinery", "Premise">>
      ELSE IF Len(e.der.ebrk) # Len(edges) \/ \E k \in 1..Len(edges) : ~SameFracs(Range(e.der.ebrk[k]), EdgeBreaks(scene, ch, edges[k][1], edges[k][2]))
           THEN <<"machinery", "Breaks">>
      ELSE IF ~e.meas.fin THEN <<e.prop, "FiniteIntegrand">>
-     ELSE IF NotSmooth(e) THEN <<e.prop, "PiecewiseSmoothIntegrand">>
-     ELSE IF e.qerr > QErrMax12 THEN <<"unmeasurable", "QuadratureError">>
+     ELSE IF e.qerr > QErrMax12 THEN <<"unmeasurable", IF NotSmooth(e) THEN "Rough" ELSE "QuadratureError">>
      ELSE LET E == ExpCirc(scene, ch, edges) IN
-          IF E = 0 THEN (IF q[1] # 0 \/ Abs(q[2]) > TolInt12 THEN <<e.prop, "CirculationZero">> ELSE <<"ok", "ok">>)
+          IF E = 0 THEN (IF Abs(q[1]) > 20 \/ Abs(q[1] * 1000000 + q[2]) > TolInt12 THEN <<e.prop, "CirculationZero">> ELSE <<"ok", "ok">>)
           ELSE IF e.amp.big THEN <<e.prop, "CirculationCurrent">>            \* gross < 0.01 A although |I*Lk| >= 1 A
-          ELSE IF Abs(q[1] - E * a[1]) > 1 THEN <<e.prop, "CirculationCurrent">>
+          ELSE IF Abs(q[1] - E * a[1]) > 20 THEN <<e.prop, "CirculationCurrent">>
           ELSE IF Abs((q[1] - E * a[1]) * 1000000 + (q[2] - E * a[2])) > TolInt12 THEN <<e.prop, "CirculationCurrent">>
           ELSE <<"ok", "ok">>
 
-Verdict(e) == IF e.inst.law = "flux" THEN FluxVerdict(e) ELSE IF e.inst.law = "circ" THEN CircVerdict(e) ELSE <<"machinery", "UnknownLaw">>
+(* point laws (C01): "obs": {"q": [q1,q2,q3], "fin": [b,b,b]} = the returned field after the unit conversion der.norm, in  *)
+(* units of 1e-8 of der.gross; norm and gross are re-computed here, the expected integer vector N only exists here.       *)
+PointVerdict(e) ==
+  LET i == e.inst
+      pt == [kind |-> i.pt.kind, src |-> SrcOf(i.scene[1]), obs |-> V3(i.pt.obs), field |-> i.pt.field, rho |-> i.pt.rho]
+  IN IF Len(i.scene) # 1 \/ ~PointPremise(pt) THEN <<"machinery", "Premise">>
+     ELSE IF Seqify(e.der.norm) # PointNorm(pt) \/ e.der.gross # PointGross(pt) THEN <<"machinery", "Norm">>
+     ELSE IF \E k \in 1..3 : ~e.obs.fin[k] THEN <<e.prop, "FiniteField">>
+     ELSE LET N == PointExpected(pt)
+              G == PointGross(pt)
+              tol == PointTol8(pt)
+          IN IF \A k \in 1..3 : Abs(e.obs.q[k] - Quant8(N[k], G)) <= tol THEN <<"ok", "ok">>
+             ELSE <<e.prop, CASE pt.kind = "dipole" -> "DipoleFormula" [] pt.kind = "sphere_out" -> "SphereOutside"
+                              [] pt.kind = "sphere_in" -> "SphereInside" [] OTHER -> "FarField">>
+
+Verdict(e) == IF e.inst.law = "flux" THEN FluxVerdict(e) ELSE IF e.inst.law = "circ" THEN CircVerdict(e)
+              ELSE IF e.inst.law = "point" THEN PointVerdict(e) ELSE <<"machinery", "UnknownLaw">>
 
 BadOf(i) == LET e == Trace[i]
                v == Verdict(e)
@@ -76,7 +91,7 @@ AllBad == UNION {BadOf(i) : i \in 1..Len(Trace)}
 Rejected == {b \in AllBad : b[2][1] # "unmeasurable"}
 ASSUME PrintT(<<"validated", Len(Trace), "rejected", Cardinality(Rejected)>>)
 ASSUME \A b \in Rejected : PrintT(<<"REJECT", b[1], b[2][2], b[2][1], <<b[3], b[4], b[5]>>>>)
-ASSUME \A b \in AllBad \ Rejected : PrintT(<<"INFO", "unmeasurable", b[1], b[4]>>)
+ASSUME \A b \in AllBad \ Rejected : PrintT(<<"INFO", "unmeasurable", b[1], b[4], b[2][2]>>)
 Init == x = 0
 Next == x' = x
 =============================================================================
